@@ -190,6 +190,9 @@ class Executor:
         self.L = Lib()
         self.L.import_all()
         self.reader = seams.install_reader()
+        seams.pin_randomness()
+        self.clock = seams.SimClock().install()
+        self.clock_dt = 0.0
         self.oracle = oracle
         self.alias_guidance = alias_guidance
         self.count_lines = count_lines
@@ -228,6 +231,7 @@ class Executor:
     def step(self, st):
         kind = st["kind"]
         ev = {"id": st["id"], "kind": kind}
+        self.clock.advance(st.get("dt", 0.0))      # simulated time passes between the caller's actions
         try:
             getattr(self, "_do_" + kind)(st, ev)
         except Unresolvable as e:
